@@ -7,6 +7,7 @@ CONSTANTS
   MaxRetries = 2
   DeadlineFails = TRUE
   AsImplemented = TRUE
+  CorruptIgnoresMeta = FALSE
   MayRelease = TRUE
 INVARIANTS Probe
 CHECK_DEADLOCK FALSE
